@@ -463,3 +463,38 @@ func VH_c10_prefix_set() {
 	vAssert(c.Evaluate(p, nil) == want, "a prefix-set condition does not hold exactly when some entry contains the route and admits its mask length")
 	vReach("end")
 }
+
+// C10 (AS_PATH prepend at the segment-size boundary): prepending an AS `repeat` times to a path
+// whose first AS_SEQUENCE already has k members yields exactly repeat copies of the AS followed by
+// the old path, in segments of at most 255 members - also when repeat + k exceeds 255.
+func VH_c10_prepend_boundary() {
+	k := 1 + vChoice("existing_members", 3)
+	repeat := uint8(253 + vChoice("repeat", 3))
+	old := []uint32{vU32("old_as"), vU32("old_as"), vU32("old_as")}[:k]
+	asn := vU32("prepended_as")
+	nlri, _ := bgp.NewIPAddrPrefix(netip.MustParsePrefix("10.1.0.0/16"))
+	attrs := []bgp.PathAttributeInterface{bgp.NewPathAttributeOrigin(0),
+		bgp.NewPathAttributeAsPath([]bgp.AsPathParamInterface{bgp.NewAs4PathParam(bgp.BGP_ASPATH_ATTR_TYPE_SEQ, append([]uint32(nil), old...))})}
+	stored := &Path{info: &originInfo{nlri: nlri, nlriString: "10.1.0.0/16", source: c02srcs[0]}, pathAttrs: attrs, family: bgp.RF_IPv4_UC}
+	p := stored.Clone(false)
+	p.PrependAsn(asn, repeat, false)
+	var flat []uint32
+	for _, seg := range p.GetAsPath().Value {
+		l := seg.GetAS()
+		vAssert(len(l) >= 1 && len(l) <= 255 && seg.GetType() == bgp.BGP_ASPATH_ATTR_TYPE_SEQ, "prepending produced an empty, over-long or wrongly typed segment")
+		flat = append(flat, l...)
+	}
+	vAssert(len(flat) == int(repeat)+k, "prepending did not add exactly `repeat` members")
+	if len(flat) != int(repeat)+k {
+		return
+	}
+	for i := 0; i < int(repeat); i++ {
+		vAssert(flat[i] == asn, "a prepended position does not hold the prepended AS")
+	}
+	for i := 0; i < k; i++ {
+		vAssert(flat[int(repeat)+i] == old[i], "the original AS_PATH was changed by prepending")
+	}
+	so := stored.GetAsPath().Value[0].GetAS()
+	vAssert(len(so) == k && so[0] == old[0], "prepending on a copy changed the stored route")
+	vReach("end")
+}
